@@ -91,6 +91,26 @@ pub struct Outer {
     multi: Histogram<u64, SortAndMerge>,
 }
 
+/// ty 2: direct mode (the struct itself is merged, no closing): for MergeOnDrop.  wire shape (2 0 1 0)
+#[aggregate(direct)]
+#[metrics]
+#[derive(Clone)]
+pub struct Direct {
+    #[aggregate(strategy = Sum)]
+    count: u64,
+    #[aggregate(strategy = Sum)]
+    bytes: u64,
+    #[aggregate(strategy = Distribution)]
+    size: u64,
+}
+fn to_direct(e: &WEntry) -> Direct {
+    Direct {
+        count: e.sums.first().copied().unwrap_or(0),
+        bytes: e.sums.get(1).copied().unwrap_or(0),
+        size: e.dists.first().and_then(|d| d.first().copied()).unwrap_or(0),
+    }
+}
+
 /// hand-written strategy over the same source: keyed by the string field only
 pub struct ByName;
 #[derive(Clone, Hash, PartialEq, Eq)]
@@ -219,10 +239,15 @@ fn to_outer(e: &WEntry) -> Outer {
 
 /// shape of a type on the wire: (sums, lasts, exact dists, bucketed histograms)
 fn shape_of(ty: u64) -> [u64; 4] {
-    if ty == 1 { [2, 0, 2, 0] } else { [2, 2, 2, 1] }
+    match ty {
+        1 => [2, 0, 2, 0],
+        2 => [2, 0, 1, 0],
+        _ => [2, 2, 2, 1],
+    }
 }
 fn ty_of_shape(x: &Sx) -> u64 {
-    if x.list().get(1).map(|v| v.num()).unwrap_or(2) == 0 { 1 } else { 0 }
+    let g = |i: usize| x.list().get(i).map(|v| v.num()).unwrap_or(2);
+    if g(1) == 0 { if g(2) == 1 { 2 } else { 1 } } else { 0 }
 }
 fn enc_shape(ty: u64) -> Sx {
     Sx::L(shape_of(ty).iter().map(|&v| sx::n(v)).collect())
@@ -316,6 +341,8 @@ fn enc_agg(ty: u64, e: &TestEntry) -> Sx {
     let g = |k: &str| e.metrics.get(k);
     let (sums, lasts, dists) = if ty == 1 {
         (vec![enc_u(g("extra")), enc_u(g("sub_count"))], vec![], vec![enc_dist(g("sub_size")), enc_dist(g("multi"))])
+    } else if ty == 2 {
+        (vec![enc_u(g("count")), enc_u(g("bytes"))], vec![], vec![enc_dist(g("size"))])
     } else {
         (
             vec![enc_u(g("count")), enc_u(g("bytes"))],
@@ -387,8 +414,8 @@ impl AnySink for TeeSink<DynS, DynS> {
 /// the input's id) of every entry it receives
 #[derive(Clone, Default)]
 pub struct RawStore(Arc<Mutex<Vec<u64>>>);
-impl EntrySink<metrique::RootEntry<ItemEntry>> for RawStore {
-    fn append(&self, entry: metrique::RootEntry<ItemEntry>) {
+impl<M: metrique::InflectableEntry + Send + 'static> EntrySink<metrique::RootEntry<M>> for RawStore {
+    fn append(&self, entry: metrique::RootEntry<M>) {
         let te = to_test_entry(entry);
         let id = te.metrics.get("last").map(|m| m.as_u64()).unwrap_or(u64::MAX);
         self.0.lock().unwrap().push(id);
@@ -517,28 +544,47 @@ fn exec_tree(case: &Sx) -> Sx {
     enc_leaves(0, &leaves)
 }
 
-/// tag 1: Aggregate<T> embedded: insert / merge / merge_ref, then close
+/// tag 1: Aggregate<T> embedded: insert / merge / merge_ref / insert_and_send_to, then close;
+/// direct-mode type: MutexSink<Aggregate<Direct>> fed through RootSink::merge and MergeOnDrop guards.
+/// output: (aggregate (ids of the entries forwarded unaggregated by insert_and_send_to))
 fn exec_embedded(case: &Sx) -> Sx {
     let ty = ty_of_shape(case.arg(0));
     let es: Vec<WEntry> = case.arg(1).list().iter().map(dec_entry).collect();
+    let raw = RawStore::default();
     let te = if ty == 1 {
         let mut agg: Aggregate<Outer> = Aggregate::default();
         for e in &es {
             AggregateSink::merge(&mut agg, to_outer(e).close());
         }
         test_metric(agg)
+    } else if ty == 2 {
+        use metrique_aggregation::traits::RootSink;
+        let sink = metrique_aggregation::sink::MutexSink::new(Aggregate::<Direct>::default());
+        for e in &es {
+            match e.id % 3 {
+                0 => RootSink::merge(&sink, to_direct(e)),
+                1 => drop(to_direct(e).merge(sink.clone())),
+                _ => {
+                    // created with another value, overwritten through DerefMut before the drop
+                    let mut g = Direct { count: 99, bytes: 99, size: 99 }.merge(sink.clone());
+                    *g = to_direct(e);
+                }
+            }
+        }
+        test_metric(sink)
     } else {
         let mut agg: Aggregate<Plain> = Aggregate::default();
         for e in &es {
-            match e.id % 3 {
+            match e.id % 4 {
                 0 => agg.insert(to_plain(e)),
                 1 => AggregateSink::merge(&mut agg, to_plain(e).close()),
-                _ => AggregateSinkRef::merge_ref(&mut agg, &to_plain(e).close()),
+                2 => AggregateSinkRef::merge_ref(&mut agg, &to_plain(e).close()),
+                _ => agg.insert_and_send_to(to_plain(e), &raw),
             }
         }
         test_metric(agg)
     };
-    enc_agg(ty, &te)
+    Sx::L(vec![enc_agg(ty, &te), Sx::L(raw.0.lock().unwrap().iter().map(|&i| sx::n(i)).collect())])
 }
 
 // ------------------------------------------------------------------------------------------ worker sink
@@ -946,6 +992,8 @@ impl Gen {
         if ty == 1 {
             let n = if r.chance(1, 4) { 0 } else { r.range(1, 4) };
             WEntry { id, name, shard, sums: vec![val(r), val(r)], lasts: vec![], dists: vec![vec![obs(r)], (0..n).map(|_| obs(r)).collect()] }
+        } else if ty == 2 {
+            WEntry { id, name: vec![], shard: 0, sums: vec![val(r), val(r)], lasts: vec![], dists: vec![vec![obs(r)]] }
         } else {
             WEntry {
                 id,
@@ -1026,6 +1074,7 @@ fn describe(out: &mut Out, case: &Sx) {
         }
         _ => {
             out.count(&format!("embedded_inserts_{}", bucket(case.arg(1).list().len() as u64)));
+            out.count(match ty_of_shape(case.arg(0)) { 0 => "embedded_type_plain", 1 => "embedded_type_outer_flatten", _ => "embedded_type_direct_merge_on_drop" });
         }
     }
 }
@@ -1145,7 +1194,7 @@ pub fn run(ctx: &Ctx) {
         emit(&mut out, tree_case(ty, tree, ops));
     }
     for _ in 0..(n / 4) {
-        let ty = if g.rng.chance(1, 3) { 1 } else { 0 };
+        let ty = g.rng.below(3);
         let len = *g.rng.pick(&[0u64, 1, 2, 5, 30, 200]);
         let big = g.rng.chance(1, 2);
         let names = g.names(2);
